@@ -5,6 +5,7 @@ import (
 	"go/ast"
 	"go/token"
 	"go/types"
+	"strings"
 
 	"verif/engine/core"
 )
@@ -298,94 +299,8 @@ func runC04(c *core.Ctx) {
 		c.Check(len(clientCalls(f, spec.method)) == 1 && len(clientCalls(f, other, "AddPathInitialDump", "ReplacePath")) == 0, "limit-from-own-route", f.Name()+" issues only "+spec.method, f.Decl.Pos(), "unexpected client notification in this function")
 	}
 
-	// (4) ------------------------------------------------------------------------------------------
+	inlineLimitTable(c, "inline-limit-table", "")
 	optF := func(n string) *types.Var { return p.Field("routingtable", "ClientOptions", n) }
-	for _, k := range []string{locPkg + ".(*LocRIB).UpdateNewClient", locPkg + ".(*LocRIB).RefreshClient"} {
-		f := c.MustFunc(k)
-		if f == nil {
-			continue
-		}
-		// find the slice r.Paths()[:n]
-		var lim types.Object
-		ast.Inspect(f.Decl.Body, func(n ast.Node) bool {
-			if se, ok := n.(*ast.SliceExpr); ok && se.High != nil {
-				if call, ok := core.Unparen(se.X).(*ast.CallExpr); ok && core.FuncKey(core.Callee(f.Pkg, call)) == "route.(*Route).Paths" {
-					lim = core.ObjOf(f.Pkg, se.High)
-				}
-			}
-			return true
-		})
-		if lim == nil {
-			c.Fail("inline-limit-table", k+" limits the dumped paths", f.Decl.Pos(), "no r.Paths()[:n] slice found: the initial dump / refresh hands out paths without the client's limit")
-			continue
-		}
-		type row struct {
-			best, ecmp int // 1 true, 0 false, -1 any
-			what       string
-			match      func(ast.Expr) bool
-		}
-		rows := []row{
-			{1, -1, "best-only → 1", func(e ast.Expr) bool { v := core.ConstOf(f.Pkg, e); return v != nil && v.ExactString() == "1" }},
-			{0, 1, "ecmp-only → the route's equal-cost count", func(e ast.Expr) bool {
-				cl, ok := core.Unparen(e).(*ast.CallExpr)
-				return ok && core.FuncKey(core.Callee(f.Pkg, cl)) == "route.(*Route).ECMPPathCount"
-			}},
-			{0, 0, "otherwise → MaxPaths", func(e ast.Expr) bool { return core.FieldOf(f.Pkg, e) == optF("MaxPaths") }},
-			{0, 0, "otherwise → bounded by the number of paths", func(e ast.Expr) bool {
-				found := false
-				ast.Inspect(e, func(n ast.Node) bool {
-					if cl, ok := n.(*ast.CallExpr); ok && core.FuncKey(core.Callee(f.Pkg, cl)) == "util/math.Min" {
-						found = true
-					}
-					return true
-				})
-				return found
-			}},
-		}
-		for _, r := range rows {
-			ok := false
-			ast.Inspect(f.Decl.Body, func(n ast.Node) bool {
-				as, isAs := n.(*ast.AssignStmt)
-				if !isAs || len(as.Lhs) != 1 || core.ObjOf(f.Pkg, as.Lhs[0]) != lim || !r.match(as.Rhs[0]) {
-					return true
-				}
-				b, e := -1, -1
-				for _, ft := range core.CtlFactsAt(f, as) {
-					if core.FieldOf(f.Pkg, ft.Expr) == optF("BestOnly") {
-						b = btoi(ft.Truth)
-					}
-					if core.FieldOf(f.Pkg, ft.Expr) == optF("EcmpOnly") {
-						e = btoi(ft.Truth)
-					}
-				}
-				if b == r.best && (r.ecmp == -1 || e == r.ecmp) {
-					ok = true
-				}
-				return true
-			})
-			c.Check(ok, "inline-limit-table", k+" "+r.what, f.Decl.Pos(), "the limit inlined here does not follow the option table of ClientOptions.GetMaxPaths for this case: the initial dump / refresh gives the client a different number of paths than incremental updates do")
-		}
-		if k == locPkg+".(*LocRIB).UpdateNewClient" {
-			// hands out copies, ends with EndOfRIB on every path
-			for _, call := range clientCalls(f, "AddPathInitialDump", "AddPath") {
-				dc, isCall := core.Unparen(call.Args[1]).(*ast.CallExpr)
-				c.Check(isCall && core.FuncKey(core.Callee(f.Pkg, dc)) == "route.(*Path).Copy", "inline-limit-table", k+" dumps copies", call.Pos(), "the initial dump hands the Loc-RIB's own path objects to the client")
-			}
-			g := p.CFG(f)
-			isEOR := func(n ast.Node) bool {
-				return core.NodeHas(n, func(x ast.Node) bool {
-					cl, ok := x.(*ast.CallExpr)
-					if !ok {
-						return false
-					}
-					se, ok := cl.Fun.(*ast.SelectorExpr)
-					return ok && se.Sel.Name == "EndOfRIB" && isClientIface(f, se.X)
-				})
-			}
-			rets, end := core.ExitsWithout(g, isEOR)
-			c.Check(len(rets) == 0 && !end, "inline-limit-table", k+" ends with EndOfRIB", f.Decl.Pos(), "a path through UpdateNewClient does not send EndOfRIB to the new client")
-		}
-	}
 	// GetMaxPaths itself
 	if f := c.MustFunc("routingtable.(*ClientOptions).GetMaxPaths"); f != nil {
 		bad := 0
@@ -430,6 +345,114 @@ func runC04(c *core.Ctx) {
 			continue
 		}
 		c.Check(allowed[f.Decl.Name.Name], "who-notifies-clients", f.Name(), f.Decl.Pos(), "client notifications are issued from a function outside the propagation/dump/dispose set: clients can be told about paths that bypass the selection diff")
+	}
+}
+
+// inlineLimitTable: the initial dump and the refresh hand a client the same window the incremental updates do (shared by C04 and C12).
+func inlineLimitTable(c *core.Ctx, rule string, only string) {
+	p := c.P
+	// (4) ------------------------------------------------------------------------------------------
+	optF := func(n string) *types.Var { return p.Field("routingtable", "ClientOptions", n) }
+	for _, k := range []string{locPkg + ".(*LocRIB).UpdateNewClient", locPkg + ".(*LocRIB).RefreshClient"} {
+		if only != "" && !strings.HasSuffix(k, only) {
+			continue
+		}
+		f := c.MustFunc(k)
+		if f == nil {
+			continue
+		}
+		// find the slice r.Paths()[:n]
+		var lim types.Object
+		ast.Inspect(f.Decl.Body, func(n ast.Node) bool {
+			if se, ok := n.(*ast.SliceExpr); ok && se.High != nil {
+				if call, ok := core.Unparen(se.X).(*ast.CallExpr); ok && core.FuncKey(core.Callee(f.Pkg, call)) == "route.(*Route).Paths" {
+					lim = core.ObjOf(f.Pkg, se.High)
+				}
+			}
+			return true
+		})
+		if lim == nil {
+			c.Fail(rule, k+" limits the dumped paths", f.Decl.Pos(), "no r.Paths()[:n] slice found: the initial dump / refresh hands out paths without the client's limit")
+			continue
+		}
+		type row struct {
+			best, ecmp int // 1 true, 0 false, -1 any
+			what       string
+			match      func(ast.Expr) bool
+		}
+		rows := []row{
+			{1, -1, "best-only → 1", func(e ast.Expr) bool { v := core.ConstOf(f.Pkg, e); return v != nil && v.ExactString() == "1" }},
+			{0, 1, "ecmp-only → the route's equal-cost count", func(e ast.Expr) bool {
+				cl, ok := core.Unparen(e).(*ast.CallExpr)
+				return ok && core.FuncKey(core.Callee(f.Pkg, cl)) == "route.(*Route).ECMPPathCount"
+			}},
+			{0, 0, "otherwise → MaxPaths", func(e ast.Expr) bool { return core.FieldOf(f.Pkg, e) == optF("MaxPaths") }},
+			{0, 0, "otherwise → bounded by the number of paths", func(e ast.Expr) bool {
+				found := false
+				ast.Inspect(e, func(n ast.Node) bool {
+					if cl, ok := n.(*ast.CallExpr); ok && (core.FuncKey(core.Callee(f.Pkg, cl)) == "util/math.Min" || core.FuncKey(core.Callee(f.Pkg, cl)) == "math.Min") && len(cl.Args) == 2 {
+						// one operand is the number of paths of the route: len(r.Paths())
+						for _, a := range cl.Args {
+							if core.NodeHas(a, func(m ast.Node) bool {
+								lc, ok := m.(*ast.CallExpr)
+								if !ok || len(lc.Args) != 1 || core.ExprString(lc.Fun) != "len" {
+									return false
+								}
+								pc, ok := core.Unparen(lc.Args[0]).(*ast.CallExpr)
+								return ok && core.FuncKey(core.Callee(f.Pkg, pc)) == "route.(*Route).Paths"
+							}) {
+								found = true
+							}
+						}
+					}
+					return true
+				})
+				return found
+			}},
+		}
+		for _, r := range rows {
+			ok := false
+			ast.Inspect(f.Decl.Body, func(n ast.Node) bool {
+				as, isAs := n.(*ast.AssignStmt)
+				if !isAs || len(as.Lhs) != 1 || core.ObjOf(f.Pkg, as.Lhs[0]) != lim || !r.match(as.Rhs[0]) {
+					return true
+				}
+				b, e := -1, -1
+				for _, ft := range core.CtlFactsAt(f, as) {
+					if core.FieldOf(f.Pkg, ft.Expr) == optF("BestOnly") {
+						b = btoi(ft.Truth)
+					}
+					if core.FieldOf(f.Pkg, ft.Expr) == optF("EcmpOnly") {
+						e = btoi(ft.Truth)
+					}
+				}
+				if b == r.best && (r.ecmp == -1 || e == r.ecmp) {
+					ok = true
+				}
+				return true
+			})
+			c.Check(ok, rule, k+" "+r.what, f.Decl.Pos(), "the limit inlined here does not follow the option table of ClientOptions.GetMaxPaths for this case: the initial dump / refresh gives the client a different number of paths than incremental updates do")
+		}
+		if k == locPkg+".(*LocRIB).UpdateNewClient" {
+			// hands out copies, ends with EndOfRIB on every path
+			for _, call := range clientCalls(f, "AddPathInitialDump", "AddPath") {
+				dc, isCall := core.Unparen(call.Args[1]).(*ast.CallExpr)
+				c.Check(isCall && core.FuncKey(core.Callee(f.Pkg, dc)) == "route.(*Path).Copy", rule, k+" dumps copies", call.Pos(), "the initial dump hands the Loc-RIB's own path objects to the client")
+			}
+			g := p.CFG(f)
+			isEOR := func(n ast.Node) bool {
+				return core.NodeHas(n, func(x ast.Node) bool {
+					cl, ok := x.(*ast.CallExpr)
+					if !ok {
+						return false
+					}
+					se, ok := cl.Fun.(*ast.SelectorExpr)
+					return ok && se.Sel.Name == "EndOfRIB" && isClientIface(f, se.X)
+				})
+			}
+			rets, end := core.ExitsWithout(g, isEOR)
+			c.Check(len(rets) == 0 && !end, rule, k+" ends with EndOfRIB", f.Decl.Pos(), "a path through UpdateNewClient does not send EndOfRIB to the new client")
+		}
 	}
 }
 
